@@ -498,7 +498,14 @@ def gen_headers_adversarial(rng, n):
         L = len(region)
         choice = rng.randrange(4)
         if choice == 0 and L >= 32:
-            o = 16 + rng.randrange(0, (L - 16) // 8) * 8
+            # corrupt the size field of one real tag (a random 8-multiple could hit the enum-typed `preference` word of a
+            # relocatable tag, which is outside C09's hypothesis)
+            starts, o = [], 16
+            for t_ in tags:
+                starts.append(o)
+                o += len(t_)
+            starts.append(o)          # the end tag
+            o = rng.choice(starts)
             region[o + 4:o + 8] = u32(rng.choice([0, 4, 7, L, L - o + 1, 0xFFFFFFF8, rng.getrandbits(32)]))
         elif choice == 1:
             newl = rng.choice([0, 8, 15, 16, 17, 24, L - 8, L + 8 if False else L - 16])
